@@ -391,13 +391,27 @@ Proof.
   repeat (first [apply Hfin | apply IH | per_step]).
 Qed.
 
-Lemma memcached_persistent udp fuel : persistent (memcached_prog udp fuel).
-Proof. induction fuel as [|f IH]; cbn [memcached_prog]; repeat (first [exact IH | per_step]). Qed.
+Lemma memcached_persistent fuel : forall lim, persistent (memcached_prog lim fuel).
+Proof. induction fuel as [|f IH]; intros lim; cbn [memcached_prog]; repeat (first [apply IH | per_step]). Qed.
 
-Lemma http_headers_persistent fuel : forall host cl k,
-  (forall h, persistent (k h)) -> persistent (http_headers fuel host cl k).
+Lemma chunk_trailer_persistent fuel : forall ok bad,
+  persistent ok -> persistent bad -> persistent (chunk_trailer fuel ok bad).
 Proof.
-  induction fuel as [|f IH]; intros host cl k Hk; cbn [http_headers]; [constructor|].
+  induction fuel as [|f IH]; intros ok bad Ho Hb; cbn [chunk_trailer]; [constructor|].
+  repeat (first [exact Ho | exact Hb | apply IH; assumption | per_step]).
+Qed.
+
+Lemma chunk_body_persistent fuel : forall acc k,
+  (forall r, persistent (k r)) -> persistent (chunk_body fuel acc k).
+Proof.
+  induction fuel as [|f IH]; intros acc k Hk; cbn [chunk_body]; [constructor|].
+  repeat (first [apply Hk | apply IH; exact Hk | apply chunk_trailer_persistent | per_step]).
+Qed.
+
+Lemma http_headers_persistent fuel : forall host cl te k,
+  (forall h, persistent (k h)) -> persistent (http_headers fuel host cl te k).
+Proof.
+  induction fuel as [|f IH]; intros host cl te k Hk; cbn [http_headers]; [constructor|].
   repeat (first [apply Hk | apply IH; exact Hk | per_step]).
 Qed.
 
@@ -418,7 +432,7 @@ Proof.
   apply http_headers_persistent. intros h.
   assert (Hagain : persistent (if h_loop cfg then http_prog cfg false f else PDone 0))
     by (destruct (h_loop cfg); [exact IH|constructor]).
-  repeat (first [exact Hagain | apply http_discard_persistent | per_step]).
+  repeat (first [exact Hagain | apply http_discard_persistent | apply chunk_body_persistent; intros ? | per_step]).
 Qed.
 
 (* ---- per service: the code's events are the reference reading of concat segs ---- *)
@@ -525,8 +539,8 @@ Qed.
 Lemma memcached_udp_datagram d : run_impl SVC_MEMCACHED_UDP [d] = expected SVC_MEMCACHED_UDP d.
 Proof.
   unfold run_impl, expected.
-  change (impl_prog SVC_MEMCACHED_UDP (fuel_for (concat [d]))) with (memcached_udp_prog false (fuel_for (concat [d]))).
-  change (spec_prog SVC_MEMCACHED_UDP (fuel_for d)) with (memcached_udp_prog true (fuel_for d)).
+  change (impl_prog SVC_MEMCACHED_UDP (fuel_for (concat [d]))) with (memcached_udp_prog false None (fuel_for (concat [d]))).
+  change (spec_prog SVC_MEMCACHED_UDP (fuel_for d)) with (memcached_udp_prog true None (fuel_for d)).
   cbn [concat]. rewrite app_nil_r. unfold memcached_udp_prog.
   apply first_read_of_datagram. intros b. apply memcached_persistent.
 Qed.
@@ -848,6 +862,57 @@ Proof.
   intros Hl Hlen. rewrite tn_feed_app. rewrite (tn_feed_text l TSess line) by (congruence || assumption).
   reflexivity.
 Qed.
+
+(* ---- snmp ---- *)
+Lemma snmp_event_persistent b : persistent (snmp_event b).
+Proof. unfold snmp_event. repeat per_step. Qed.
+
+Lemma snmp_datagram d : run_impl SVC_SNMP [d] = expected SVC_SNMP d.
+Proof.
+  unfold run_impl, expected. change (impl_prog SVC_SNMP (fuel_for (concat [d]))) with (snmp_prog false).
+  change (spec_prog SVC_SNMP (fuel_for d)) with (snmp_prog true). unfold snmp_prog.
+  apply first_read_of_datagram. exact snmp_event_persistent.
+Qed.
+
+(* ---- datagram sequences and the reply limiter ---- *)
+(* services that ask the limiter only after they have reported (counterstrike, snmp) or not at
+   all (dns): the events of ANY sequence of datagrams from one source are those of the
+   datagrams, whatever the token count *)
+Lemma udp_seq_independent svc :
+  svc <> SVC_TFTP -> svc <> SVC_MEMCACHED_UDP ->
+  (forall d, run_impl svc [d] = expected svc d) ->
+  forall ds t, udp_seq svc t ds = udp_seq_expected svc ds.
+Proof.
+  intros H1 H2 Hd. induction ds as [|d r IH]; intros t; cbn [udp_seq udp_seq_expected]; [reflexivity|].
+  unfold udp_one. apply N.eqb_neq in H1. apply N.eqb_neq in H2. unfold beq at 1 2. rewrite H1, H2.
+  rewrite Hd. destruct (expected svc d) as [es c]. rewrite IH. reflexivity.
+Qed.
+
+(* tftp asks the limiter before it decodes: within the budget every datagram is reported *)
+Lemma tftp_within_budget ds : forall t, length ds <= t -> udp_seq SVC_TFTP t ds = udp_seq_expected SVC_TFTP ds.
+Proof.
+  induction ds as [|d r IH]; intros t Hl; cbn [udp_seq udp_seq_expected]; [reflexivity|].
+  cbn [length] in Hl. destruct t as [|t']; [lia|].
+  change (udp_one SVC_TFTP (S t') d) with (let '(es, c) := seg_obs (tftp_prog false) [d] in (es, c, t')).
+  pose proof (tftp_datagram d) as Hd. unfold run_impl in Hd.
+  change (impl_prog SVC_TFTP (fuel_for (concat [d]))) with (tftp_prog false) in Hd. rewrite Hd.
+  destruct (expected SVC_TFTP d) as [es c]. rewrite IH by lia. reflexivity.
+Qed.
+
+(* ... and beyond it nothing is: five read requests from one source, four events *)
+Definition W_RRQ (k : N) : bytes := [0; 1; 102; 48 + k; 0; 111; 99; 116; 101; 116; 0]%N.
+Lemma tftp_limiter_refuted :
+  let ds := [W_RRQ 1; W_RRQ 2; W_RRQ 3; W_RRQ 4; W_RRQ 5] in
+  length (fst (udp_seq SVC_TFTP LIMITER_BURST ds)) = 4 /\ length (fst (udp_seq_expected SVC_TFTP ds)) = 5.
+Proof. vm_compute. split; reflexivity. Qed.
+
+(* memcached asks after every command event and stops at a refusal: the further commands of a
+   datagram over the budget are not reported *)
+Definition W_MC_UDP : bytes := [0;1;0;0;0;1;0;0]%N ++ [103;101;116;32;97;13;10;103;101;116;32;98;13;10]%N.
+Lemma memcached_limiter_refuted :
+  length (fst (udp_seq SVC_MEMCACHED_UDP LIMITER_BURST [W_MC_UDP; W_MC_UDP; W_MC_UDP])) = 5 /\
+  length (fst (udp_seq_expected SVC_MEMCACHED_UDP [W_MC_UDP; W_MC_UDP; W_MC_UDP])) = 6.
+Proof. vm_compute. split; reflexivity. Qed.
 
 (* ------------------------------------------------------------------ *)
 (* the property at full strength                                       *)
